@@ -15,6 +15,10 @@ Streams
                 NameCheckVisitor.show_error / show_errors_for_unused_ignores / show_errors_for_bare_ignores
   options     : synthetic option-instance lists -> real Options.is_error_code_enabled
   lines       : random small sources -> the real _lines() and the positions CPython's parser assigns
+  layers      : every combination of routes on the same code: config top level, extended config, per-module overrides
+                (module / parent / grandparent / unrelated package, extended file), -e / -d, --enable-all / --disable-all,
+                through prepare_constructor_kwargs (settings dict + config_file) and through the real parser + main()
+                in-process; property: D(P, stack) == [d in D(P, all on) : documented precedence(code d)]
   model       : lake env lean --run Driver/C11.lean  (C11.check, C11.specCheck, C11.pyLines / tokLines, the D11
                 classes, C11.isErrorCodeEnabled)
 Correspondence: every real run records the raw stream of show_error calls (a recording subclass of
@@ -157,6 +161,13 @@ def _classes():
         """NameCheckVisitor that records every show_error call (the raw stream)."""
 
         _rec = None
+        _last = []     # visitors created by main() (the argv route of the layers stream)
+
+        def check(self, *a, **kw):
+            if self._rec is None:
+                self._rec = []
+                type(self)._last.append(self)
+            return super().check(*a, **kw)
 
         def show_error(self, node, e=None, error_code=None, **kw):
             if self._rec is not None:
@@ -235,12 +246,13 @@ def get_kwargs(ctx, route, off):
     return kw
 
 
-def real_run(ctx, src, off=(), route="cmd"):
+def real_run(ctx, src, off=(), route="cmd", kwargs=None, want_visitor=False):
     """Check `src` with real pyanalyze. Returns (failures, raw stream, used_ignores, lines).
     failures: (code, lineno, col, message); raw: dicts; node identities renumbered by first appearance;
     lines: what the visitor's own _lines() yields for the source (without the "\n" it appends)."""
     from pyanalyze.analysis_lib import make_module
-    kwargs = get_kwargs(ctx, route, off)
+    if kwargs is None:
+        kwargs = get_kwargs(ctx, route, off)
     _MODN[0] += 1
     name = "c11pkg.sub.m%d" % _MODN[0]
     tree = ast.parse(src)
@@ -257,8 +269,9 @@ def real_run(ctx, src, off=(), route="cmd"):
             sys.modules.pop(k, None)
     fails = [(f["code"].name if f.get("code") is not None else None, f.get("lineno"), f.get("col_offset"),
               norm(f.get("description", "")).split("\n")[0]) for f in res]
-    return (fails, encode_raw(v._rec[:getattr(v, "_rec_visit_end", len(v._rec))]), sorted(v.used_ignores),
-            real_lines(v))
+    out = (fails, encode_raw(v._rec[:getattr(v, "_rec_visit_end", len(v._rec))]), sorted(v.used_ignores),
+           real_lines(v))
+    return out + (v,) if want_visitor else out
 
 
 def real_lines(v):
@@ -620,7 +633,8 @@ def program_case(ctx, batch, base, budget):
         subsets = [S for r in range(1, len(codes) + 1) for S in itertools.combinations(codes, r)]
     else:
         subsets = [(c,) for c in codes] + [tuple(x for x in codes if x != c) for c in codes] + [tuple(codes)]
-        subsets += [tuple(sorted(rng.sample(codes, rng.randint(2, len(codes) - 2)))) for _ in range(budget["extra_subsets"])]
+        if len(codes) >= 4:
+            subsets += [tuple(sorted(rng.sample(codes, rng.randint(2, len(codes) - 2)))) for _ in range(budget["extra_subsets"])]
         subsets = list(dict.fromkeys(subsets))
     routes = [("cmd", S) for S in subsets]
     for S in rng.sample(subsets, min(len(subsets), budget["cfg_routes"])):
@@ -878,6 +892,259 @@ def run_options(ctx, with_model=True):
                 ctx.disagree("options", {"insts": c[0], "path": c[1], "code": c[2]}, impl[i], model[i])
 
 
+# ------------------------------------------------------------------ layers stream: every combination of routes
+PER_CODE_LAYERS = ["top", "ext", "ovr_exact", "ovr_parent", "ovr_grand", "ovr_other", "ext_ovr", "cmd"]
+EXH_LAYERS = ["top", "ext", "ovr_exact", "ovr_parent", "cmd"]       # x the global --enable-all/--disable-all
+LAYER_PROGRAM = ["def g(): return undefined_z", "import os", "def h(a: int) -> None:", "    x = undefined_1", "    os.nope",
+                 "    return None"]
+
+
+def oracle_enabled(a, allflag, default):
+    """The documented precedence, written out: command line (-d, -e, then --enable-all / --disable-all), main file
+    (most specific applicable override, else top level), extended file (override, else top level), default."""
+    if a.get("cmd") is not None:
+        return a["cmd"]
+    if allflag == "E":
+        return True
+    if allflag == "D":
+        return False
+    for layer in ("ovr_exact", "ovr_parent", "ovr_grand", "top", "ext_ovr", "ext"):   # ovr_other never applies
+        if a.get(layer) is not None:
+            return a[layer]
+    return default
+
+
+def write_stack(ctx, rng, assign, modname, tag):
+    """pyproject-style files for the config layers of `assign` ({code: {layer: bool}}). Returns (path of the main
+    file or None, model encoding of the file stack)."""
+    parts = modname.split(".")
+    mods = {"ovr_exact": modname, "ovr_parent": ".".join(parts[:2]), "ovr_grand": parts[0], "ovr_other": parts[0] + ".subx"}
+    ent = lambda layer: [(c, a[layer]) for c, a in assign.items() if a.get(layer) is not None]
+    toml = lambda es: "".join("%s = %s\n" % (c, "true" if v else "false") for c, v in es)
+    enc = lambda es: ",".join("%s=%d" % (c, v) for c, v in es) or "-"
+    ext_used = bool(ent("ext") or ent("ext_ovr"))
+    ovs = [(mods[l], ent(l)) for l in ("ovr_exact", "ovr_parent", "ovr_grand", "ovr_other") if ent(l)]
+    rng.shuffle(ovs)        # specificity, not position, must decide
+    if not (ent("top") or ovs or ext_used):
+        return None, "-"
+    main = os.path.join(ctx.scratch, "layers-%s.toml" % tag)
+    body = "[tool.pyanalyze]\n"
+    if ext_used:
+        body += "extend_config = \"layers-%s-base.toml\"\n" % tag
+    body += toml(ent("top"))
+    for m, es in ovs:
+        body += "[[tool.pyanalyze.overrides]]\nmodule = \"%s\"\n%s" % (m, toml(es))
+    with open(main, "w") as f:
+        f.write(body)
+    model = "@".join([enc(ent("top"))] + ["%s:%s" % (m, enc(es)) for m, es in ovs])
+    if ext_used:
+        with open(os.path.join(ctx.scratch, "layers-%s-base.toml" % tag), "w") as f:
+            f.write("[tool.pyanalyze]\n" + toml(ent("ext")))
+            if ent("ext_ovr"):
+                f.write("[[tool.pyanalyze.overrides]]\nmodule = \"%s\"\n%s" % (modname, toml(ent("ext_ovr"))))
+        model += ";" + "@".join([enc(ent("ext"))] + (["%s:%s" % (modname, enc(ent("ext_ovr")))] if ent("ext_ovr") else []))
+    return main, model
+
+
+def layers_run(ctx, rng, base, assign, allflag, route, tag):
+    """One real run of `base` under the stack. Returns (failures, raw, {code: effective enabled-ness read from the
+    visitor's options}, module name, model encoding of the files)."""
+    from pathlib import Path
+    E = pya.ErrorCode
+    enable = [c for c, a in assign.items() if a.get("cmd") is True]
+    disable = [c for c, a in assign.items() if a.get("cmd") is False]
+    src = "\n".join(base) + "\n"
+    if route == "argv":     # the real parser and main(): files on disk, module imported from a package directory
+        _MODN[0] += 1
+        modname = "c11pkg.sub.m%d" % _MODN[0]
+        pkg = os.path.join(ctx.scratch, "c11pkg", "sub")
+        os.makedirs(pkg, exist_ok=True)
+        for d in (os.path.dirname(pkg), pkg):
+            open(os.path.join(d, "__init__.py"), "a").close()
+        path = "c11pkg/sub/m%d.py" % _MODN[0]      # relative to the scratch directory: the importer derives the
+        with open(os.path.join(ctx.scratch, path), "w") as f:   # module name c11pkg.sub.mN from the package layout
+            f.write(src)
+        main, model = write_stack(ctx, rng, assign, modname, tag)
+        argv = ["pyanalyze"] + (["--config-file", main] if main else [])
+        argv += {"E": ["--enable-all"], "D": ["--disable-all"], None: []}[allflag]
+        argv += [x for c in enable for x in ("-e", c)] + [x for c in disable for x in ("-d", c)] + [path]
+        del _REC._last[:]
+        old_argv, old_cwd = sys.argv, os.getcwd()
+        try:
+            sys.argv = argv
+            os.chdir(ctx.scratch)
+            with contextlib.redirect_stderr(io.StringIO()), contextlib.redirect_stdout(io.StringIO()):
+                _REC.main()
+        finally:
+            sys.argv = old_argv
+            os.chdir(old_cwd)
+            for k in [k for k in sys.modules if k.startswith("c11pkg.sub.m")]:
+                sys.modules.pop(k, None)
+        vs = [v for v in _REC._last if v.filename.endswith("m%d.py" % _MODN[0])]
+        if len(vs) != 1:
+            raise RuntimeError("argv route: expected one visitor for %s, got %d" % (path, len(vs)))
+        v = vs[0]
+        fails = [(f["code"].name if f.get("code") is not None else None, f.get("lineno"), f.get("col_offset"),
+                  norm(f.get("description", "")).split("\n")[0]) for f in v.all_failures]
+        raw = encode_raw(v._rec[:getattr(v, "_rec_visit_end", len(v._rec))])
+        real_name = v.module.__name__ if v.module is not None else None
+        if real_name != modname:
+            raise RuntimeError("argv route: module imported as %r, expected %r" % (real_name, modname))
+    else:                   # settings dict (what main() builds) + config_file through prepare_constructor_kwargs
+        modname = "c11pkg.sub.m%d" % (_MODN[0] + 1)
+        main, model = write_stack(ctx, rng, assign, modname, tag)
+        if allflag == "E":
+            settings = {c: True for c in E}
+        elif allflag == "D":
+            settings = {c: False for c in E}
+        else:
+            settings = {}
+        for c in enable:
+            settings[getattr(E, c)] = True
+        for c in disable:
+            settings[getattr(E, c)] = False
+        kw = {"settings": settings}
+        if main:
+            kw["config_file"] = Path(main)
+        kwargs = _NCV.prepare_constructor_kwargs(kw)
+        fails, raw, _, _, v = real_run(ctx, src, kwargs=kwargs, want_visitor=True)
+    eff = {c: bool(v.options.is_error_code_enabled(getattr(E, c))) for c in assign}
+    return fails, raw, eff, modname, model
+
+
+def run_layers(ctx, with_model=True):
+    """Every combination of routes on the same code: each code of a program gets a value (absent / on / off) in each
+    layer — config top level, extended config, per-module override for the module / its parent / its grandparent / an
+    unrelated package, an override in the extended file, -e / -d — plus --enable-all / --disable-all, through the real
+    routes. Property: D(P, stack) == [d in D(P, everything on) : precedence(code d)] (oracle_enabled)."""
+    from pyanalyze.options import ConfigOption
+    global _NCV, _REC
+    if _NCV is None:
+        _NCV, _REC = _classes()
+    rng = ctx.rng
+    E = pya.ErrorCode
+    dflt = lambda c: bool(ConfigOption.registry[c].default_value)
+    jobs = []       # (base, assign, allflag, route)
+
+    def baseline(base, route):
+        fails, raw, _, _, _ = layers_run(ctx, rng, base, {}, "E", route, "base")
+        return fails
+
+    # 1. exhaustive: one on-by-default and one off-by-default code of LAYER_PROGRAM, all 3^6 joint assignments
+    base0 = LAYER_PROGRAM
+    D0 = {"kwargs": baseline(base0, "kwargs")}
+    codes0 = sorted({d[0] for d in D0["kwargs"]})
+    on = [c for c in codes0 if dflt(c)]
+    off = [c for c in codes0 if not dflt(c)]
+    if not on or not off:
+        ctx.obligation_broken("layers-generator", "LAYER_PROGRAM no longer has an on-by-default and an off-by-default code: %r" % codes0)
+        return
+    pair = [on[0], off[0]]
+    exh = [(vals, allflag) for vals in itertools.product([None, True, False], repeat=len(EXH_LAYERS)) for allflag in (None, "E", "D")]
+    ctx.extra["layers_exhaustive"] = "codes %s of LAYER_PROGRAM x all %d assignments of layers %s x all-flag" % (pair, len(exh), EXH_LAYERS)
+    cap = ctx.n(30, len(exh))
+    if len(exh) > cap:
+        exh = rng.sample(exh, cap)
+        ctx.extra["layers_exhaustive"] += "; sampled down to %d by the seed" % cap
+    for vals, allflag in exh:
+        a = dict(zip(EXH_LAYERS, vals))
+        assign = {}
+        for c in codes0:
+            if c in pair:
+                assign[c] = dict(a, **{l: rng.choice([None, None, True, False]) for l in ("ovr_grand", "ovr_other", "ext_ovr")})
+            else:
+                assign[c] = {l: rng.choice([None, None, True, False]) for l in PER_CODE_LAYERS}
+        jobs.append((base0, assign, allflag, "argv" if rng.random() < 0.25 else "kwargs"))
+    # 2. random programs, every code its own random value in every layer
+    PROFILE[0] = "std"
+    for _ in range(ctx.n(1, 12)):
+        base = gen_program(rng, small=True)
+        for _ in range(ctx.n(6, 25)):
+            jobs.append((base, None, rng.choice([None, None, "E", "D"]), "argv" if rng.random() < 0.3 else "kwargs"))
+    # ---- run
+    baselines = {}
+    results = []
+    for idx, (base, assign, allflag, route) in enumerate(jobs):
+        key = (tuple(base), route)
+        if key not in baselines:
+            try:
+                baselines[key] = baseline(base, route)
+            except Exception as e:
+                ctx.tag("layers_generator_rejects")
+                ctx.notes.append("layers: program rejected (%s: %s)" % (type(e).__name__, e))
+                baselines[key] = None
+        Dall = baselines[key]
+        if not Dall:
+            continue
+        codes = sorted({d[0] for d in Dall})
+        if assign is None:
+            assign = {c: {l: rng.choice([None, None, True, False]) for l in PER_CODE_LAYERS} for c in codes}
+        fails, raw, eff, modname, model_files = layers_run(ctx, rng, base, assign, allflag, route, "r%d" % idx)
+        exp = [d for d in Dall if oracle_enabled(assign.get(d[0], {}), allflag, dflt(d[0]))]
+        case = {"layers": {"program": base, "assign": assign, "all": allflag, "route": route}}
+        ctx.count(1, layers=1, **{"layers_route_" + route: 1})
+        ctx.nontriv("layers:" + json.dumps(case, sort_keys=True, default=str))
+        if idx % 97 == 0:
+            ctx.sample({"layers": {"assign": {c: {k: v for k, v in a.items() if v is not None} for c, a in assign.items()},
+                                   "all": allflag, "route": route, "D": sorted({d[0] for d in fails})}})
+        what = None
+        if sorted(fails, key=repr) != sorted(exp, key=repr):
+            wrong = sorted({d[0] for d in fails if d not in exp} | {d[0] for d in exp if d not in fails})
+            c = wrong[0]
+            what = "layers %s, all=%s (%s route): code %s is %s although the precedence says %s (default %s)" % (
+                {k: v for k, v in assign.get(c, {}).items() if v is not None}, allflag, route, c,
+                "reported" if any(d[0] == c for d in fails) else "not reported",
+                "on" if oracle_enabled(assign.get(c, {}), allflag, dflt(c)) else "off", dflt(c))
+        results.append((case, assign, allflag, modname, model_files, eff, codes, fails, raw, what))
+    if not with_model:
+        for case, *_, what in results:
+            if what:
+                ctx.candidate(case, what, cls=None, conforms=False, stream="layers")
+        return
+    qs, owners = [], []
+    for ri, (case, assign, allflag, modname, model_files, eff, codes, fails, raw, what) in enumerate(results):
+        enable = [c for c, a in assign.items() if a.get("cmd") is True]
+        disable = [c for c, a in assign.items() if a.get("cmd") is False]
+        for c in codes:
+            qs.append("L|%s|%s|%s|%s|%s|%s|%d" % (allflag or "-", ",".join(enable) or "-", ",".join(disable) or "-", model_files,
+                                                  modname, c, dflt(c)))
+            owners.append((ri, c))
+    outs = lean.run_driver("C11", qs) if qs else []
+    model_en = {}
+    for (ri, c), o in zip(owners, outs):
+        d = dict(x.split("=", 1) for x in o.split(" ")) if o != "bad-op" else {"en": "bad-op", "spec": "bad-op"}
+        model_en[(ri, c)] = d
+    for ri, (case, assign, allflag, modname, model_files, eff, codes, fails, raw, what) in enumerate(results):
+        conforms = True
+        for c in codes:
+            d = model_en[(ri, c)]
+            ctx.corr("layers")
+            if d["en"] != str(int(eff[c])):
+                conforms = False
+                ctx.disagree("layers", dict(case, code=c), "is_error_code_enabled(%s) = %s" % (c, eff[c]), "C11.enabledStack = %s" % d["en"])
+            ctx.corr("spec-layers")
+            want = str(int(oracle_enabled(assign.get(c, {}), allflag, dflt(c))))
+            if d["spec"] != want or d["en"] != d["spec"]:
+                ctx.disagree("spec-layers", dict(case, code=c), "python oracle %s" % want, "C11.specEnabled = %s, enabledStack = %s" % (d["spec"], d["en"]))
+        # the model's projection of the raw stream: first occurrences of the calls whose code the model switches on
+        seen, proj = set(), []
+        for r in raw:
+            k = (r["node"], r["code"] or r["msg"])
+            if r["cap"] or k in seen:
+                continue
+            if r["code"] is not None and model_en.get((ri, r["code"]), {}).get("en") != "1":
+                continue
+            seen.add(k)
+            if r["save"]:
+                proj.append((r["code"], r["line"], r["col"]))
+        ctx.corr("layers-projection")
+        if proj != [f[:3] for f in fails]:
+            conforms = False
+            ctx.disagree("layers-projection", case, show_fails(fails), show_fails(proj))
+        if what:
+            ctx.candidate(case, what, cls=None, conforms=conforms, stream="layers")
+
+
 # ------------------------------------------------------------------ lines stream: _lines() and the tokenizer
 def check_lines_case(ctx, src, py, tok):
     real = lines_of_source(ctx, src)
@@ -993,8 +1260,8 @@ def corpus():
 def _run(ctx, with_model):
     import time
     batch = Batch(ctx, with_model)
-    budget_small = dict(max_codes_all=ctx.n(4, 5), extra_subsets=ctx.n(3, 6), cfg_routes=2, single=10 ** 6, multi=ctx.n(6, 20))
-    budget_rand = dict(max_codes_all=ctx.n(3, 5), extra_subsets=ctx.n(3, 12), cfg_routes=ctx.n(1, 3),
+    budget_small = dict(max_codes_all=ctx.n(3, 5), extra_subsets=ctx.n(1, 6), cfg_routes=ctx.n(1, 2), single=10 ** 6, multi=ctx.n(6, 20))
+    budget_rand = dict(max_codes_all=ctx.n(2, 5), extra_subsets=ctx.n(1, 12), cfg_routes=ctx.n(1, 3),
                        single=ctx.n(70, 10 ** 6), multi=ctx.n(8, 25))
     timing = ctx.extra.setdefault("timing_s", {})
     t = [time.time()]
@@ -1017,15 +1284,15 @@ def _run(ctx, with_model):
     for _ in range(ctx.n(3, 10)):
         program_case(ctx, batch, gen_program(ctx.rng, small=True), budget_small)
     lap("small_programs")
-    for _ in range(ctx.n(3, 30)):
+    for _ in range(ctx.n(2, 30)):
         program_case(ctx, batch, gen_program(ctx.rng), budget_rand)
     lap("random_programs")
-    for _ in range(ctx.n(2, 8)):   # sources where str.splitlines() and the tokenizer disagree (repaired by ba62f49)
+    for _ in range(ctx.n(1, 8)):   # sources where str.splitlines() and the tokenizer disagree (repaired by ba62f49)
         program_case(ctx, batch, inject_breaks(ctx.rng, gen_program(ctx.rng, small=True)), budget_rand)
     lap("break_programs")
     PROFILE[0] = "wide"      # every error code on: lint codes join the diagnostics and the subsets
     try:
-        for _ in range(ctx.n(2, 10)):
+        for _ in range(ctx.n(1, 10)):
             program_case(ctx, batch, gen_program(ctx.rng, small=ctx.tier == "quick" and not ctx.big()), budget_rand)
     finally:
         PROFILE[0] = "std"
@@ -1035,6 +1302,8 @@ def _run(ctx, with_model):
     run_options(ctx, with_model)
     run_lines(ctx, with_model)
     lap("options_lines")
+    run_layers(ctx, with_model)
+    lap("layers")
     for _ in range(ctx.n(1, 3)):
         run_cli(ctx, gen_program(ctx.rng, small=True))
     lap("cli")
@@ -1093,6 +1362,20 @@ def replay_units(ctx, items, with_model=True):
                 ctx.disagree("unit", it, impl[i], want)
 
 
+def replay_layers(ctx, L):
+    from pyanalyze.options import ConfigOption
+    global _NCV, _REC
+    if _NCV is None:
+        _NCV, _REC = _classes()
+    dflt = lambda c: bool(ConfigOption.registry[c].default_value)
+    Dall = layers_run(ctx, ctx.rng, L["program"], {}, "E", L["route"], "base")[0]
+    fails = layers_run(ctx, ctx.rng, L["program"], L["assign"], L["all"], L["route"], "replay")[0]
+    exp = [d for d in Dall if oracle_enabled(L["assign"].get(d[0], {}), L["all"], dflt(d[0]))]
+    if sorted(fails, key=repr) != sorted(exp, key=repr):
+        ctx.candidate({"layers": L}, "reported %s, the precedence gives %s" % (sorted({d[0] for d in fails}), sorted({d[0] for d in exp})),
+                      cls=None, conforms=False, stream="layers")
+
+
 def replay(ctx, data):
     case = data.get("case") or (data.get("broken") or [{}])[0].get("case")
     if not case:
@@ -1104,6 +1387,8 @@ def replay(ctx, data):
         batch.flush()
     elif "lines" in case:
         replay_units(ctx, [case])
+    elif "layers" in case:
+        replay_layers(ctx, case["layers"])
     elif "src" in case:
         m = re.match(r"py=(.*) tok=(.*)$", lean.run_driver("C11", ["S|" + enc_line(case["src"])])[0])
         check_lines_case(ctx, case["src"], dec_lines(m.group(1)), dec_lines(m.group(2)))
